@@ -401,6 +401,12 @@ def rockit_side(args):
                     exp = np.array([[float(Fr(v)) for v in col] for col in Xp])      # (N+1) x nx, time-major like DM2numpy
                     rb.append([i, exp.reshape(-1).tolist(), got.reshape(-1).tolist()])
             out["readback"] = rb
+            if sol is not None:
+                # sol.value(ocp.objective) is the cost the solver works on
+                try:
+                    out["objective_readback"] = [float(sol.value(master.objective)), float(sol.sol.value(master._method.opti.f))]
+                except Exception as e_:
+                    out["objective_readback_error"] = str(e_)[:200]
     except nlp.Mismatch as e:
         out["mismatch"] = str(e)
     except Exception as e:
